@@ -1196,37 +1196,125 @@ def fold_rules(repo, chk):
     chk.floor("R-C15-7", 24)
 
 
+def _expr_world(repo):
+    from ..concrete import World, stdlib_overrides, Namespace
+    ov, _state = stdlib_overrides()
+    ov["six"] = Namespace("six", with_metaclass=lambda meta, *bases: (bases[0] if bases else object), string_types=(str,), integer_types=(int,))
+    return World(repo, ov, fuel=20000000)
+
+
+# expression DAGs with shared sub-expressions in every position (front / middle / end of the left operand's list, both sides, nested, through unary
+# functions); each is a function of an `ops` object so that the same recipe builds the repository's expression (interpreted) and the sympy reference
+def _dag_recipes():
+    def r_front(o, x, y, z):        # documented case: the shared part leads the left operand's list
+        e = o.add(o.mul(x, y), 1.0)
+        return o.mul(e, o.add(e, y))
+
+    def r_both(o, x, y, z):
+        e = o.mul(x, y)
+        return o.mul(o.add(e, 1.0), o.add(e, 2.0))
+
+    def r_not_leading(o, x, y, z):  # the shared part is NOT at the front of the left operand's list
+        e = o.mul(x, y)
+        return o.mul(o.add(o.mul(2.0, x), e), e)
+
+    def r_middle(o, x, y, z):
+        e = o.sub(x, z)
+        left = o.add(o.add(o.mul(y, y), e), o.div(z, y))
+        return o.div(left, o.mul(e, e))
+
+    def r_nested(o, x, y, z):
+        a_ = o.mul(x, y)
+        b_ = o.add(a_, x)
+        c_ = o.mul(b_, a_)
+        return o.add(o.sub(c_, o.mul(b_, z)), o.pow(a_, 2.0))
+
+    def r_unary(o, x, y, z):
+        e = o.fn("exp", o.mul(x, 0.5))
+        s_ = o.fn("sin", o.add(e, y))
+        return o.add(o.mul(s_, e), o.mul(o.fn("log", o.add(e, z)), s_))
+
+    def r_twice_right(o, x, y, z):  # the right operand shares TWO separate parts with the left one, in the other order
+        e1 = o.mul(x, z)
+        e2 = o.add(y, z)
+        left = o.add(o.mul(e1, 3.0), o.mul(e2, e2))
+        right = o.sub(e2, e1)
+        return o.mul(left, right)
+
+    def r_power(o, x, y, z):
+        e = o.add(x, y)
+        return o.add(o.pow(e, o.mul(z, 0.5)), o.mul(e, z))
+    return [("e*(e + y)", r_front), ("(e + 1)*(e + 2)", r_both), ("(2x + e)*e", r_not_leading), ("(y*y + e + z/y) / (e*e)", r_middle),
+            ("nested shares", r_nested), ("shared exp / sin", r_unary), ("two shared parts, other order", r_twice_right), ("shared base of a power", r_power)]
+
+
 def dag_rules(repo, chk, rpn_info):
-    t = repo.tree(EXPR)
+    # (a) T3, bounded to the recipes above: expressions with shared sub-expressions are BUILT by the repository's own operator overloads (interpreted by
+    #     sa/concrete.py) and differentiated by its own reverse_ad / reverse_sd; value and every partial derivative are compared with sympy's at two points,
+    #     and no operator may be listed twice (each listed operator is evaluated and differentiated once)
+    import sympy as sp
+    from ..concrete import ProgramError, Instance
+    world = _expr_world(repo)
+    I = world.interp
+    Var = world.function(EXPR, "Var")
+    exprcls = repo.cls(EXPR, "expression")
+    exprcls._rel = EXPR
+
+    class RepoOps(object):
+        def _b(self, node, a, b):
+            return I.binop(I._BIN, node, a, b, None)
+
+        def add(self, a, b): return self._b(ast.Add(), a, b)
+        def sub(self, a, b): return self._b(ast.Sub(), a, b)
+        def mul(self, a, b): return self._b(ast.Mult(), a, b)
+        def div(self, a, b): return self._b(ast.Div(), a, b)
+        def pow(self, a, b): return self._b(ast.Pow(), a, b)
+        def fn(self, name, a): return I.call(world.function(EXPR, name), [a], {})
+
+    class SymOps(object):
+        def add(self, a, b): return a + b
+        def sub(self, a, b): return a - b
+        def mul(self, a, b): return a * b
+        def div(self, a, b): return a / b
+        def pow(self, a, b): return a ** b
+        def fn(self, name, a): return getattr(sp, name)(a)
+    sx, sy, sz = sp.symbols("x y z", positive=True)
     n_a = 0
-    for fn in [n for n in ast.walk(t) if isinstance(n, ast.FunctionDef)]:
-        for loop in [x for x in walk(fn) if isinstance(x, ast.For)]:
-            if not (isinstance(loop.iter, ast.Call) and isinstance(loop.iter.func, ast.Attribute) and loop.iter.func.attr in ("operators", "list_of_operators")):
-                continue
-            apps = [c for c in calls(ast.Module(body=loop.body, type_ignores=[])) if last_attr(c) == "append_operator"
-                    or (isinstance(c.func, ast.Attribute) and c.func.attr == "append" and "_operators" in unparse(c.func.value))]
-            if not apps or not isinstance(loop.target, ast.Name):
-                continue
-            recv = unparse(loop.iter.func.value)
-            if recv == "self":
-                continue          # iterating one's own list is not a merge
+    for label, recipe in _dag_recipes():
+        sym = recipe(SymOps(), sx, sy, sz)
+        for pt in ((1.3, 0.7, 2.1), (0.4, 2.5, 0.9)):
+            try:
+                vs_ = [Var(v) for v in pt]
+                f = recipe(RepoOps(), *vs_)
+                ops_ = list(I.iterate(I.call(I.getattr_(f, "operators"), [], {})))
+                val = I.call(I.getattr_(f, "evaluate"), [], {})
+                ad = I.call(I.getattr_(f, "reverse_ad"), [], {})
+                sd = I.call(I.getattr_(f, "reverse_sd"), [], {})
+                ders, sders = [], []
+                for v in vs_:
+                    ders.append(ad[v] if v in ad else 0.0)
+                    d_ = sd[v] if v in sd else 0.0
+                    if isinstance(d_, Instance):
+                        d_ = I.call(I.getattr_(d_, "evaluate"), [], {})
+                    sders.append(d_)
+            except ProgramError as e:
+                raise ExtractError("R-C15-8 %s: the interpreted expression code raised %s (line %s)" % (label, e, e.lineno))
+            sub = dict(zip((sx, sy, sz), pt))
+            want = float(sym.subs(sub))
+            wder = [float(sp.diff(sym, s_).subs(sub)) for s_ in (sx, sy, sz)]
+            dup = len(ops_) - len({id(o) for o in ops_})
+
+            def close(u, w):
+                return isinstance(u, (int, float)) and abs(u - w) <= 1e-9 * max(1.0, abs(w))
             n_a += 1
-            v = loop.target.id
-            guarded = False
-            for a in apps:
-                q = a
-                while q is not None and q is not loop:
-                    q = getattr(q, "_parent", None)
-                    if isinstance(q, ast.If):
-                        tt = unparse(q.test)
-                        if ("%s not in " % v) in tt or ("id(%s) not in " % v) in tt:
-                            guarded = True
-            fn._rel = EXPR
-            chk.expect(guarded, "R-C15-8", "%s merges the operators of %s without duplicates" % (fn.name, recv), loc(fn, loop),
-                       "operators of another expression are appended unconditionally: a sub-expression shared by both sides is listed twice and its derivative "
-                       "is propagated twice (e = x + 1; e*(e + y) has d/dx doubled)", expected="if oper not in <operators already present>", found=norm(loop))
-    if n_a < 1:
-        chk.error("R-C15-8: no loop merging the operators of another expression found in expr.py (anchors moved?)")
+            okv = close(val, want) and all(close(u, w) for u, w in zip(ders, wder)) and all(close(u, w) for u, w in zip(sders, wder)) and dup == 0
+            if pt == (1.3, 0.7, 2.1) or not okv:
+                chk.expect(okv, "R-C15-8", "expression with a shared sub-expression, %s: value, reverse_ad and reverse_sd agree with the analytic derivative; no operator listed twice" % label,
+                           loc(exprcls), "built by the repository's own overloads and differentiated by its own reverse sweep (interpreted); a shared sub-expression listed twice has its adjoint "
+                           "pushed down twice: residuals stay right, the Jacobian entries are wrong", expected="value %.12g, d/d(x,y,z) %s" % (want, ["%.12g" % w for w in wder]),
+                           found="value %r, reverse_ad %s, reverse_sd %s, %d duplicate operator(s) among %d" % (val, ders, sders, dup, len(ops_)))
+    if n_a < 16:
+        chk.error("R-C15-8: only %d of the shared sub-expression fixtures were evaluated" % n_a)
     # (b) decided on the abstract runs of get_rpn (rpn_programs): for every combination with a non-leaf operand, the program stored for the
     #     operator is a list object of its own and the operand's program in rpn_map is what it was before the call
     for owner, (fn, operands, progs) in sorted(rpn_info.items()):
@@ -1238,9 +1326,13 @@ def dag_rules(repo, chk, rpn_info):
                        "rpn_map[self] aliases the operand's list or the operand's list is mutated (append/extend/insert): a second use of that operand "
                        "(shared sub-expression, or the exponent in the power rule's derivative) reads a corrupted program", expected="list(rpn_map[operand]) left untouched",
                        found="operand program changed: %s; same list object: %s" % (r["mutated"] or "-", r["aliased"] or "-"))
-    chk.floor("R-C15-8", 1 + 3 + 1 + 7 + 1)
+    chk.floor("R-C15-8", 8 + 3 + 1 + 7 + 1)
 
 WITNESSES = [
+    dict(name="merge-assumes-shared-operators-lead-the-list", file=EXPR, old="        present = None\n        for oper in other.operators():\n            if present is None:\n                present = set(self.operators())\n            if oper not in present:\n                present.add(oper)\n                self.append_operator(oper)\n",
+         new="        n_shared = 0\n        for mine, theirs in zip(self.operators(), other.operators()):\n            if mine is not theirs:\n                break\n            n_shared += 1\n        for oper in itertools.islice(other.operators(), n_shared, None):\n            self.append_operator(oper)\n", rule="R-C15-8"),
+    dict(name="merge-by-identity-list-preserving", file=EXPR, silent=True, old="        present = None\n        for oper in other.operators():\n            if present is None:\n                present = set(self.operators())\n            if oper not in present:\n                present.add(oper)\n                self.append_operator(oper)\n",
+         new="        mine = list(self.operators())\n        fresh = [oper for oper in other.operators() if not any(oper is m for m in mine)]\n        for oper in fresh:\n            self.append_operator(oper)\n"),
     dict(name="setter-skips-unchanged-cache", file=EXPR, old="    def value(self, val):\n        self._value = val\n", new="    def value(self, val):\n        if val == self._value:\n            return\n        self._value = val\n", rule="R-C15-9"),
     dict(name="rpn-aliases-operand-program", file=EXPR, old="            rpn_map[self] = _rpn = list(rpn_map[self._operand])\n", new="            rpn_map[self] = _rpn = rpn_map[self._operand]\n", rule="R-C15-8"),
     dict(name="merge-appends-duplicates", file=EXPR, old="            if oper not in present:\n                present.add(oper)\n                self.append_operator(oper)",
